@@ -17,6 +17,7 @@ type fileInfo struct {
 	name string
 	dir  bool
 	link bool
+	pipe bool
 	size int64
 	real string // resolved absolute path: the identity of the file on the virtual disk
 }
@@ -39,6 +40,9 @@ func (i fileInfo) Size() int64  { return i.size }
 func (i fileInfo) Mode() fs.FileMode {
 	if i.link {
 		return fs.ModeSymlink | 0o777
+	}
+	if i.pipe {
+		return fs.ModeNamedPipe | 0o600
 	}
 	if i.dir {
 		return fs.ModeDir | 0o755
@@ -97,7 +101,7 @@ func Stat(name string) (FileInfo, error) {
 	if r.Status != 0 {
 		return nil, pathErr("stat", name, r.Status)
 	}
-	return fileInfo{name: base(name), dir: r.A == 1, size: r.B, real: r.S}, nil
+	return fileInfo{name: base(name), dir: r.A == 1, pipe: r.A == 3, size: r.B, real: r.S}, nil
 }
 
 // Lstat is Stat: the virtual disk has no symbolic links.
@@ -109,7 +113,7 @@ func Lstat(name string) (FileInfo, error) {
 	if r.Status != 0 {
 		return nil, pathErr("lstat", name, r.Status)
 	}
-	return fileInfo{name: base(name), dir: r.A == 1, link: r.A == 2, size: r.B, real: r.S}, nil
+	return fileInfo{name: base(name), dir: r.A == 1, link: r.A == 2, pipe: r.A == 3, size: r.B, real: r.S}, nil
 }
 
 // Readlink returns the destination of the named symbolic link of the virtual disk.
@@ -174,4 +178,79 @@ func ReadDir(name string) ([]DirEntry, error) {
 func VReadDirNames(abs string) ([]string, int64) {
 	r := kern.Call(kern.Req{Op: kern.OpReadDir, S: abs})
 	return r.Strs, r.Status
+}
+
+// Open opens a file of the virtual disk for reading. The code under test gets a real *os.File:
+// the content (as the kernel's read of that moment delivers it, faults included) is copied into
+// an unlinked temporary file, so Read, Stat().Size(), Seek and Close behave as usual.
+func Open(name string) (*File, error) {
+	if !kern.Active() {
+		return orig.Open(name)
+	}
+	st := kern.Call(kern.Req{Op: kern.OpStat, S: VAbs(name)})
+	if st.Status == 0 && st.A == 1 {
+		// a directory: nothing to read; give the real call something that is a directory
+		return orig.Open(orig.TempDir())
+	}
+	r := kern.Call(kern.Req{Op: kern.OpReadFile, S: VAbs(name)})
+	if r.Status != 0 {
+		return nil, pathErr("open", name, r.Status)
+	}
+	if st.Status == 0 && st.A == 3 {
+		// a named pipe: the reader gets a real pipe that delivers the content and then EOF
+		pr, pw, err := orig.Pipe()
+		if err != nil {
+			return nil, err
+		}
+		data := append([]byte(nil), r.Data...)
+		go func() { pw.Write(data); pw.Close() }()
+		return pr, nil
+	}
+	f, err := orig.CreateTemp("", "verifsim-open-*")
+	if err != nil {
+		return nil, err
+	}
+	orig.Remove(f.Name())
+	if _, err := f.Write(r.Data); err != nil {
+		f.Close()
+		return nil, err
+	}
+	if _, err := f.Seek(0, 0); err != nil {
+		f.Close()
+		return nil, err
+	}
+	return f, nil
+}
+
+// OpenFile: read-only opens go to the virtual disk, everything else to the real one.
+func OpenFile(name string, flag int, perm FileMode) (*File, error) {
+	if kern.Active() && flag&(orig.O_WRONLY|orig.O_RDWR|orig.O_CREATE|orig.O_APPEND|orig.O_TRUNC) == 0 {
+		return Open(name)
+	}
+	return orig.OpenFile(name, flag, perm)
+}
+
+// Getpid is constant: the process id must not leak into file names or traces of a simulated run.
+func Getpid() int {
+	if !kern.Active() {
+		return orig.Getpid()
+	}
+	return 4242
+}
+
+// TempDir is /tmp on the virtual disk (files can always be written there).
+func TempDir() string {
+	if !kern.Active() {
+		return orig.TempDir()
+	}
+	return "/tmp"
+}
+
+// Remove deletes a file of the virtual disk written during the run; anything else is reported
+// as done (the virtual disk of a world is not modified by the code under test otherwise).
+func Remove(name string) error {
+	if !kern.Active() {
+		return orig.Remove(name)
+	}
+	return nil
 }
